@@ -8,7 +8,7 @@ import subprocess
 import sys
 from concurrent.futures import ThreadPoolExecutor
 
-os.chdir("/verif")
+os.chdir(os.path.dirname(os.path.dirname(os.path.abspath(__file__))))
 args = sys.argv[1:]
 jobs = 3
 if "-j" in args:
